@@ -263,7 +263,7 @@ class ScriptApp:
         inst.outcome = "running"
         try:
             await self._run(inst, program, receive, send)
-        except AppCrash:
+        except (AppCrash, ExceptionGroup):
             if not w.finished:
                 inst.outcome = "raised:AppCrash"
                 inst.t_end = w.now()
@@ -354,6 +354,8 @@ class ScriptApp:
                 await w.sleep(op[1])
             elif kind == "raise":
                 raise AppCrash()
+            elif kind == "raise_group":  # what an application running its own task group / nursery raises
+                raise ExceptionGroup("application task group", [AppCrash()])
             elif kind == "return":
                 return
             elif kind == "cancel":
